@@ -492,6 +492,7 @@ impl TabHarness {
                         Ret::None => false,
                         Ret::EvenIds => e.id % 2 == 0,
                         Ret::Alternate => visit % 2 == 0,
+                        Ret::KeepHigh => e.id as usize >= hashbrown::verif::GROUP_WIDTH,
                     };
                     visit += 1;
                     if keep {
@@ -515,6 +516,8 @@ impl TabHarness {
                     Ret::None => false,
                     Ret::EvenIds => id % 2 == 0,
                     Ret::Alternate => visit % 2 == 0,
+                    // (extract_if selects what is removed: the low ids)
+                    Ret::KeepHigh => (id as usize) < hashbrown::verif::GROUP_WIDTH,
                 };
                 let mut selected: Vec<u32> = Vec::new();
                 let mut rest = 0usize;
@@ -702,7 +705,7 @@ impl Harness for TabHarness {
         }
         v.push(TabOp::Clear);
         if self.cfg.full_alphabet {
-            for k in [Ret::All, Ret::None, Ret::EvenIds, Ret::Alternate] {
+            for k in [Ret::All, Ret::None, Ret::EvenIds, Ret::Alternate, Ret::KeepHigh] {
                 v.push(TabOp::Retain(k));
                 v.push(TabOp::ExtractIf(k, 255));
                 v.push(TabOp::ExtractIf(k, 254));
